@@ -23,7 +23,7 @@ func init() {
 	addVariants(
 		Variant{ID: "c07-r1-no-checksum-announce", Prop: "C07", File: "slave_connection.go",
 			Old: "\tif err := s.prepareForReplication(); err != nil {\n\t\ts.close()\n\t\treturn nil, err\n\t}\n", New: "",
-			Expect: "C07-R0 anchor@handshake preparation"},
+			Expect: "C07-R1 announce-path@"},
 		Variant{ID: "c07-r1-wrong-variable", Prop: "C07", File: "slave_connection.go",
 			Old: "s.dc.Exec(\"SET @master_binlog_checksum=@@global.binlog_checksum\")", New: "s.dc.Exec(\"SET @master_heartbeat_period=30000000000\")",
 			Expect: "C07-R1 announce@"},
@@ -60,6 +60,10 @@ func runC07(a *A) {
 func c07R1(a *A, r *Roles) {
 	const rule = "C07-R1"
 	w := a.W
+	if r.Prepare == nil {
+		a.viol(rule, "announce@missing", w.pos(r.NewConn.Pos()), "no function of the package issues an Exec on the driver connection: the checksum announcement is gone")
+		return
+	}
 	// the announcing Exec in the preparation function
 	var exec *ssa.Call
 	instrs(r.Prepare, func(in ssa.Instruction) {
@@ -103,7 +107,24 @@ func c07R1(a *A, r *Roles) {
 		}
 	})
 	if prep == nil {
-		a.viol(rule, "announce-path@"+r.NewConn.Name(), w.pos(r.NewConn.Pos()), "the connection constructor does not run the checksum announcement")
+		// alternative shape: Stream itself runs the announcement, unconditionally, before the dump
+		var sp *ssa.Call
+		instrs(r.Stream, func(in ssa.Instruction) {
+			if c, ok := in.(*ssa.Call); ok && c.Common().StaticCallee() == r.Prepare {
+				sp = c
+			}
+		})
+		okStream := false
+		if sp != nil && instrDominates(sp, r.StartDumpCall) {
+			for _, ce := range dominatingConds(r.StartDumpCall.Block()) {
+				x, nonNilOnTrue, isT := nilTest(ce.Cond)
+				if isT && x == ssa.Value(sp) && ce.Val != nonNilOnTrue {
+					okStream = true
+				}
+			}
+		}
+		a.check(okStream, rule, "announce-path@Stream", w.pos(r.Stream.Pos()), "Stream runs the announcement on every call before the dump and aborts on its failure",
+			"neither the connection constructor nor Stream runs the checksum announcement on every path to the dump request (skipped, conditional, or its failure ignored): the master is asked to dump to a connection that never announced checksum awareness")
 		return
 	}
 	ok := true
